@@ -74,6 +74,22 @@ func checkC21(w *World, r *Run) {
 		o := mat[m]
 		r.Check(o.Own, ruleOv, "(*outboxStorage)."+m, T.Obj().Pos(), "own", "promoted from "+o.Via+": bypasses the outbox ordering")
 	}
+	worker := w.SSAFunc(relOutbox, "outboxStorage.maybeProcessOutboxEntries")
+	checkOutboxDrain(w, r, ruleDrain, nil)
+	checkC21Worker(w, r, ruleWorker, worker)
+	checkC21Options(w, r, ruleOpts, mat)
+	checkOutboxSQL(w, r, ruleSQL, stmts, "storageoutboxentry", "storage_outbox_entries")
+	r.NotCovered("FIFO behaviour at run time (claims, lease expiry, crashes between replay and finalize ⇒ at-least-once replay); idempotence of replayed operations")
+}
+
+// checkOutboxDrain: every forward to the inner storage happens after an error-checked drain
+// of sufficient scope. `only` restricts the rule to some forwarded methods (C07 uses it for
+// the operations that evaluate a condition against the inner storage's state).
+func checkOutboxDrain(w *World, r *Run, rule string, only map[string]bool) {
+	if w.Pkg(relOutbox) == nil {
+		r.Anchor(rule, relOutbox)
+		return
+	}
 	sp := w.SSA[w.Pkg(relOutbox).Types]
 	worker := w.SSAFunc(relOutbox, "outboxStorage.maybeProcessOutboxEntries")
 
@@ -93,9 +109,12 @@ func checkC21(w *World, r *Run) {
 			if _, isStorage := storageMethods[m]; !isStorage {
 				return // WithTransaction etc.
 			}
+			if only != nil && !only[m] {
+				return
+			}
 			cons := strings.ReplaceAll(funcName(fn), relOutbox+".", "") + " → innerStorage." + m
 			if why, ok := c21Exempt[cons]; ok {
-				r.Exempt(ruleDrain, cons, posOf(c), why)
+				r.Exempt(rule, cons, posOf(c), why)
 				return
 			}
 			need := c21MinScope(m)
@@ -128,7 +147,7 @@ func checkC21(w *World, r *Run) {
 				}
 			}
 			if len(drains) == 0 {
-				r.Bad(ruleDrain, cons, posOf(c), "forwarded without a dominating, error-checked drain of the outbox: the inner storage may not yet contain accepted writes")
+				r.Bad(rule, cons, posOf(c), "forwarded without a dominating, error-checked drain of the outbox: the inner storage may not yet contain accepted writes")
 				return
 			}
 			best := 0
@@ -142,7 +161,7 @@ func checkC21(w *World, r *Run) {
 					}
 				}
 				if !found {
-					r.Bad(ruleDrain, cons, posOf(c), "the drain does not cover a bucket passed to the forwarded call")
+					r.Bad(rule, cons, posOf(c), "the drain does not cover a bucket passed to the forwarded call")
 					return
 				}
 			}
@@ -151,13 +170,9 @@ func checkC21(w *World, r *Run) {
 					best = d.scope
 				}
 			}
-			r.Check(best >= need, ruleDrain, cons, posOf(c), fmt.Sprintf("drain scope %d ≥ required %d", best, need), fmt.Sprintf("drain scope %d is weaker than the scope %d this method needs to reflect accepted writes", best, need))
+			r.Check(best >= need, rule, cons, posOf(c), fmt.Sprintf("drain scope %d ≥ required %d", best, need), fmt.Sprintf("drain scope %d is weaker than the scope %d this method needs to reflect accepted writes", best, need))
 		})
 	}
-	checkC21Worker(w, r, ruleWorker, worker)
-	checkC21Options(w, r, ruleOpts, mat)
-	checkOutboxSQL(w, r, ruleSQL, stmts, "storageoutboxentry", "storage_outbox_entries")
-	r.NotCovered("FIFO behaviour at run time (claims, lease expiry, crashes between replay and finalize ⇒ at-least-once replay); idempotence of replayed operations")
 }
 
 func checkC21Worker(w *World, r *Run, rule string, worker *ssa.Function) {
